@@ -50,17 +50,18 @@ prop('C16',
      ])
 
 prop('C13',
-     units=['ff'],
+     units=['ff', 'poly'],
      kani=[{'name': 'k_bool_laws'}, {'name': 'k_real_lattice'}, {'name': 'k_eu_lattice'},
            {'name': 'k_real_add_small_int'}, {'name': 'k_real_mul_small_int'},
            {'name': 'k_eu_semiring_small_int'}, {'name': 'k_complex_small_int'},
            {'name': 'k_eu_mulassoc_small_int', 'thorough_only': True}, {'name': 'k_complex_mulassoc_small_int', 'thorough_only': True}],
      assumptions=[A_VERUS, A_EXTRACT, A_KANI],
-     replay={'kani': 'lattice', '*': 'ff'},
+     replay={'kani': 'lattice', 'poly': 'poly', '*': 'ff'},
      explanation='FiniteField: new/value/negate/one/zero/add/mul/sub verbatim against integer arithmetic modulo P (generic P with 2(P-1) <= u128::MAX, discharged for each exported prime by compute); '
-                 'ring laws are lemmas over the operator specifications.  Boolean semiring and the real / expected-utility lattice operations: loop-free Kani harnesses over the whole bit domain.',
+                 'ring laws are lemmas over the operator specifications.  Truncated polynomials (unit poly): zero, one, + and * against their definitions, generic in the coefficient semiring.  Boolean semiring and the real / expected-utility lattice operations: loop-free Kani harnesses over the whole bit domain.',
      not_covered=[
-         'RationalSemiring (external crate `rational`)', 'truncated polynomials (32-coefficient loops)',
+         'RationalSemiring (external crate `rational`)',
+         'the semiring LAWS of truncated polynomials: unit poly proves that zero / one / + / * compute the definition (coefficient-wise sum; truncated convolution in the order the code adds the terms) for any coefficient semiring, not that this definition is associative / distributive (that needs the laws of the coefficient type)',
          'real +,* beyond integers |x| <= 8 and expected-utility / complex +,* beyond integers |x| <= 4 (domain-bounded Kani harnesses, labelled as such; floating-point addition is not associative in general); the multiplication associativity / distributivity harnesses of the latter two run in the thorough tier only (50-100 s)',
      ])
 
